@@ -54,3 +54,6 @@ fn b_varint_canary_must_fail() {
     std::mem::forget(r);
     assert!(c.position() == 1, "canary");
 }
+
+// concrete-playback replay slot (see lib/kani_run.py: replay); empty except while a counterexample is being replayed
+include!("varint.playback.rs");
